@@ -271,7 +271,7 @@ where
 
 	// we're just going to run a selection to get the potential fee,
 	// but this won't be locked
-	let (_coins, _total, _amount, fee) = selection::select_coins_and_fee(
+	let (_coins, _total, amount, fee) = selection::select_coins_and_fee(
 		wallet,
 		init_tx_args.amount,
 		init_tx_args.amount_includes_fee.unwrap_or(false),
@@ -283,6 +283,11 @@ where
 		&parent_key_id,
 	)?;
 	slate.fee_fields = FeeFields::new(0, fee)?;
+	// when the amount includes the fee the recipient is paid the reduced
+	// amount, as in the non late-locked case
+	if init_tx_args.amount_includes_fee.unwrap_or(false) {
+		slate.amount = amount;
+	}
 
 	let keychain = wallet.keychain(keychain_mask)?;
 
